@@ -1120,6 +1120,11 @@ func serverEngine(seed uint64, tier string, args []string) {
 		})
 		return
 	}
+	if from == 0 {
+		for n := 0; n < 6; n++ {
+			siblingServersCase(seed, n)
+		}
+	}
 	procBase = runtime.NumGoroutine()
 	for i := from; i < len(cases); i++ {
 		runServerCase(&cases[i])
